@@ -62,6 +62,78 @@ theorem NoFpNoAnchor.keepA {b b' : Buf} (hn : NoFpNoAnchor b) (k : KeepA b b') :
 theorem NoFpNoAnchor.keep {b b' : Buf} (hn : NoFpNoAnchor b) (k : Keep b b') : NoFpNoAnchor b' :=
   hn.keepA k.toKeepA
 
+/-- the anchor record that survives the bracket `SetAnchor(cursor) … RaiseAnchor(cursor)` of the line and token calls:
+    an anchor at or before the cursor is untouched; an anchor AHEAD of the cursor (legal for `esl_buffer_SetAnchor`,
+    which accepts any offset of the window, and reachable by an in-window rewind) is replaced by the bracket's own
+    anchor and disappears with it -/
+def Buf.brkAnchor (b : Buf) : Option Nat :=
+  match b.anchor with
+  | some a => if a ≤ b.pos then some (b.base + a) else none
+  | none => none
+
+/-- like `KeepA`, relative to a prescribed anchor record `A` -/
+structure KeepX (A : Option Nat) (b b' : Buf) : Prop where
+  src : b'.src = b.src
+  ps : b'.pagesize = b.pagesize
+  mode : b'.mode = b.mode
+  hasfp : b'.hasfp = b.hasfp
+  anch : b'.absAnchor = A
+  nanch : A ≠ none → b'.nanchor = b.nanchor
+  nofp : b.hasfp = false → b'.base = b.base ∧ b'.mem = b.mem
+
+theorem KeepX.toKeepA {b b' : Buf} (k : KeepX b.absAnchor b b') : KeepA b b' :=
+  ⟨k.src, k.ps, k.mode, k.hasfp, k.anch, fun hne => k.nanch (fun h => hne ((absAnchor_eq_none b).mp h)), k.nofp⟩
+
+theorem KeepA.toKeepX {b b' : Buf} (k : KeepA b b') : KeepX b.absAnchor b b' :=
+  ⟨k.src, k.ps, k.mode, k.hasfp, k.anch, fun hne => k.nanch (fun h => hne ((absAnchor_eq_none b).mpr h)), k.nofp⟩
+
+theorem KeepX.transA {A : Option Nat} {a b c : Buf} (h1 : KeepX A a b) (h2 : KeepA b c) : KeepX A a c :=
+  ⟨h2.src.trans h1.src, h2.ps.trans h1.ps, h2.mode.trans h1.mode, h2.hasfp.trans h1.hasfp,
+   h2.anch.trans h1.anch,
+   fun hne => (h2.nanch (fun hb => hne (by rw [← h1.anch]; exact (absAnchor_eq_none b).mpr hb))).trans (h1.nanch hne),
+   fun hf => by
+     obtain ⟨x1, x2⟩ := h1.nofp hf
+     obtain ⟨y1, y2⟩ := h2.nofp (by rw [h1.hasfp]; exact hf)
+     exact ⟨y1.trans x1, y2.trans x2⟩⟩
+
+/-- a step that keeps the anchor record, before a `KeepX` step -/
+theorem KeepA.transX {A : Option Nat} {a b c : Buf} (h1 : KeepA a b) (h2 : KeepX A b c) (hA : A ≠ none → a.anchor ≠ none) :
+    KeepX A a c :=
+  ⟨h2.src.trans h1.src, h2.ps.trans h1.ps, h2.mode.trans h1.mode, h2.hasfp.trans h1.hasfp, h2.anch,
+   fun hne => (h2.nanch hne).trans (h1.nanch (hA hne)),
+   fun hf => by
+     obtain ⟨x1, x2⟩ := h1.nofp hf
+     obtain ⟨y1, y2⟩ := h2.nofp (by rw [h1.hasfp]; exact hf)
+     exact ⟨y1.trans x1, y2.trans x2⟩⟩
+
+/-- `brkAnchor` in input coordinates -/
+def brkAt (A : Option Nat) (t : Nat) : Option Nat :=
+  match A with
+  | some x => if x ≤ t then some x else none
+  | none => none
+
+theorem brkAnchor_eq_brkAt (b : Buf) : b.brkAnchor = brkAt b.absAnchor (b.base + b.pos) := by
+  unfold Buf.brkAnchor brkAt Buf.absAnchor
+  cases b.anchor with
+  | none => rfl
+  | some a =>
+    simp only [Option.map_some]
+    by_cases h : a ≤ b.pos
+    · rw [if_pos h, if_pos (by omega)]
+    · rw [if_neg h, if_neg (by omega)]
+
+theorem brkAt_ne_none {A : Option Nat} {t : Nat} (h : brkAt A t ≠ none) : A ≠ none := by
+  intro hA; rw [hA] at h; exact h rfl
+
+theorem brkAnchor_of_le {b : Buf} (hle : ∀ a, b.anchor = some a → a ≤ b.pos) : b.brkAnchor = b.absAnchor := by
+  unfold Buf.brkAnchor Buf.absAnchor
+  cases ha : b.anchor with
+  | none => rfl
+  | some a => simp [hle a ha]
+
+theorem brkAnchor_of_ahead {b : Buf} {a : Nat} (ha : b.anchor = some a) (hlt : b.pos < a) : b.brkAnchor = none := by
+  unfold Buf.brkAnchor; simp only [ha]; rw [if_neg (by omega)]
+
 /-! ### the loops only change the state through `buffer_refill` -/
 
 theorem countlineLoop_keep (fuel : Nat) : ∀ (b : Buf) (nc : Nat), WF b → Keep b (countlineLoop fuel b nc).2.1 := by
@@ -179,14 +251,14 @@ theorem raiseAnchor_more (b : Buf) (o a : Nat) (h : b.anchor = some a) (he : b.b
 
 /-- The bracket `SetAnchor(offset) … RaiseAnchor(offset)` around steps that keep the anchor record: afterwards
     the anchor record is what it was before. -/
-theorem bracket (b b3 : Buf) (h : WF b) (ha : AnchOK b) (hn : NoFpNoAnchor b)
+theorem bracketX (b b3 : Buf) (h : WF b) (ha : AnchOK b) (hn : NoFpNoAnchor b)
     (hk : Keep (setAnchor b (b.base + b.pos)).2 b3) :
-    KeepA b (raiseAnchor b3 (b.base + b.pos)) ∧ AnchOK (raiseAnchor b3 (b.base + b.pos)) := by
+    KeepX b.brkAnchor b (raiseAnchor b3 (b.base + b.pos)) ∧ AnchOK (raiseAnchor b3 (b.base + b.pos)) := by
   have hp := h.hpos
   obtain ⟨f1, f2, f3, f4, f5, f6⟩ := setAnchor_fields b (b.base + b.pos)
   obtain ⟨g1, g2, g3, g4, g5, g6⟩ := raiseAnchor_fields b3 (b.base + b.pos)
-  have core : (raiseAnchor b3 (b.base + b.pos)).absAnchor = b.absAnchor ∧
-      (b.anchor ≠ none → (raiseAnchor b3 (b.base + b.pos)).nanchor = b.nanchor) ∧
+  have core : (raiseAnchor b3 (b.base + b.pos)).absAnchor = b.brkAnchor ∧
+      (b.brkAnchor ≠ none → (raiseAnchor b3 (b.base + b.pos)).nanchor = b.nanchor) ∧
       AnchOK (raiseAnchor b3 (b.base + b.pos)) := by
     cases hfp : b.hasfp with
     | false =>
@@ -194,6 +266,8 @@ theorem bracket (b b3 : Buf) (h : WF b) (ha : AnchOK b) (hn : NoFpNoAnchor b)
       rw [e] at hk
       have h3 : b3.anchor = none := (anchor_none_of_abs hk.anch).mpr (hn hfp)
       rw [raiseAnchor_none b3 _ h3]
+      have hbk : b.brkAnchor = b.absAnchor := brkAnchor_of_le (fun a haa => by rw [hn hfp] at haa; cases haa)
+      rw [hbk]
       exact ⟨hk.anch, fun _ => hk.nanch, ha.keep hk⟩
     | true =>
       have hr : ¬ (b.base + b.pos < b.base ∨ b.base + b.pos > b.base + b.n) := by omega
@@ -207,11 +281,29 @@ theorem bracket (b b3 : Buf) (h : WF b) (ha : AnchOK b) (hn : NoFpNoAnchor b)
         have hN : b3.nanchor = 1 := hk.nanch
         obtain ⟨a3, h3, h3e⟩ := absAnchor_some hA
         rw [raiseAnchor_last b3 _ a3 h3 h3e (by omega)]
-        refine ⟨?_, fun hne => absurd rfl hne, ?_⟩
-        · simp [Buf.absAnchor, han]
+        refine ⟨?_, fun hne => absurd ?_ hne, ?_⟩
+        · simp [Buf.absAnchor, Buf.brkAnchor, han]
+        · simp [Buf.brkAnchor, han]
         · intro a haa; simp at haa
       | some a =>
-        have hap := h.hanch a han
+        by_cases hap : a ≤ b.pos
+        case neg =>
+          -- an anchor ahead of the cursor: `SetAnchor(cursor)` replaces it (`r < anchor`), `RaiseAnchor(cursor)` removes that
+          have hbk : b.brkAnchor = none := brkAnchor_of_ahead han (by omega)
+          have e : (setAnchor b (b.base + b.pos)).2 = { b with anchor := some b.pos, nanchor := 1 } := by
+            unfold setAnchor; simp only [hfp, hr, han, hsub]
+            have x1 : b.pos < a := by omega
+            simp [x1]
+          rw [e] at hk
+          have hA : b3.absAnchor = some (b.base + b.pos) := hk.anch
+          have hN : b3.nanchor = 1 := hk.nanch
+          obtain ⟨a3, h3, h3e⟩ := absAnchor_some hA
+          rw [raiseAnchor_last b3 _ a3 h3 h3e (by omega), hbk]
+          refine ⟨?_, fun hne => absurd rfl hne, ?_⟩
+          · simp [Buf.absAnchor]
+          · intro a haa; simp at haa
+        have hbk : b.brkAnchor = b.absAnchor := brkAnchor_of_le (fun x hx => by rw [han] at hx; cases hx; exact hap)
+        rw [hbk]
         have hbA : b.absAnchor = some (b.base + a) := by simp [Buf.absAnchor, han]
         by_cases hae : a = b.pos
         · have e : (setAnchor b (b.base + b.pos)).2 = { b with nanchor := b.nanchor + 1 } := by
@@ -239,17 +331,28 @@ theorem bracket (b b3 : Buf) (h : WF b) (ha : AnchOK b) (hn : NoFpNoAnchor b)
   obtain ⟨y1, y2⟩ := hk.nofp (by rw [f4]; exact hf)
   exact ⟨g5.trans (y1.trans f5), g6.trans (y2.trans f6)⟩
 
+/-- the bracket when the anchor is at or before the cursor (every history inside the API contract) -/
+theorem bracket (b b3 : Buf) (h : WF b) (ha : AnchOK b) (hn : NoFpNoAnchor b) (hle : ∀ a, b.anchor = some a → a ≤ b.pos)
+    (hk : Keep (setAnchor b (b.base + b.pos)).2 b3) :
+    KeepA b (raiseAnchor b3 (b.base + b.pos)) ∧ AnchOK (raiseAnchor b3 (b.base + b.pos)) := by
+  obtain ⟨k, a⟩ := bracketX b b3 h ha hn hk
+  rw [brkAnchor_of_le hle] at k
+  exact ⟨k.toKeepA, a⟩
+
+theorem KeepX.setpos {A : Option Nat} {b b4 : Buf} (k : KeepX A b b4) (p : Nat) : KeepX A b { b4 with pos := p } :=
+  k.transA (setpos_keep b4 p).toKeepA
+
 /-- moving the cursor does not touch what `KeepA`/`AnchOK` talk about -/
 theorem KeepA.setpos {b b4 : Buf} (k : KeepA b b4) (p : Nat) : KeepA b { b4 with pos := p } :=
   k.trans (setpos_keep b4 p).toKeepA
 
 /-! ### the operations -/
 
-theorem getLine_keep (b : Buf) (h : WF b) (ha : AnchOK b) (hn : NoFpNoAnchor b) :
-    KeepA b (getLine b).2 ∧ AnchOK (getLine b).2 := by
+theorem getLine_keepX (b : Buf) (h : WF b) (ha : AnchOK b) (hn : NoFpNoAnchor b) :
+    KeepX b.brkAnchor b (getLine b).2 ∧ AnchOK (getLine b).2 := by
   have hp := h.hpos
   obtain ⟨s1, s2, s3⟩ := setAnchor_spec b (b.base + b.pos) h (by omega) (Nat.le_refl _)
-  have hbr := fun b3 => bracket b b3 h ha hn
+  have hbr := fun b3 => bracketX b b3 h ha hn
   generalize hsa : setAnchor b (b.base + b.pos) = sa at *
   obtain ⟨st1, b1⟩ := sa
   simp only [] at s1 s2 s3 hbr
@@ -295,11 +398,17 @@ theorem getLine_keep (b : Buf) (h : WF b) (ha : AnchOK b) (hn : NoFpNoAnchor b) 
     rw [e]
     exact ⟨k4.setpos _, a4⟩
 
-theorem fetchLine_keep (b : Buf) (asStr : Bool) (h : WF b) (ha : AnchOK b) (hn : NoFpNoAnchor b) :
-    KeepA b (fetchLine b asStr).2 ∧ AnchOK (fetchLine b asStr).2 := by
+theorem getLine_keep (b : Buf) (h : WF b) (ha : AnchOK b) (hn : NoFpNoAnchor b) (hle : ∀ a, b.anchor = some a → a ≤ b.pos) :
+    KeepA b (getLine b).2 ∧ AnchOK (getLine b).2 := by
+  obtain ⟨k, a⟩ := getLine_keepX b h ha hn
+  rw [brkAnchor_of_le hle] at k
+  exact ⟨k.toKeepA, a⟩
+
+theorem fetchLine_keepX (b : Buf) (asStr : Bool) (h : WF b) (ha : AnchOK b) (hn : NoFpNoAnchor b) :
+    KeepX b.brkAnchor b (fetchLine b asStr).2 ∧ AnchOK (fetchLine b asStr).2 := by
   have hp := h.hpos
   obtain ⟨s1, s2, s3⟩ := setAnchor_spec b (b.base + b.pos) h (by omega) (Nat.le_refl _)
-  have hbr := fun b3 => bracket b b3 h ha hn
+  have hbr := fun b3 => bracketX b b3 h ha hn
   generalize hsa : setAnchor b (b.base + b.pos) = sa at *
   obtain ⟨st1, b1⟩ := sa
   simp only [] at s1 s2 s3 hbr
@@ -342,7 +451,13 @@ theorem fetchLine_keep (b : Buf) (asStr : Bool) (h : WF b) (ha : AnchOK b) (hn :
         (({ st := .ok, bytes := (b2.src.drop (b2.base + b2.pos)).take nc, n := nc, z := asStr } : Out), b5) := by
       unfold fetchLine; simp only [hsa, hcl, hsl, hb3, hb4, hrf, hst5, if_false]
     rw [e]
-    exact ⟨k4.trans hk5.toKeepA, a4.keep hk5⟩
+    exact ⟨k4.transA hk5.toKeepA, a4.keep hk5⟩
+
+theorem fetchLine_keep (b : Buf) (asStr : Bool) (h : WF b) (ha : AnchOK b) (hn : NoFpNoAnchor b)
+    (hle : ∀ a, b.anchor = some a → a ≤ b.pos) : KeepA b (fetchLine b asStr).2 ∧ AnchOK (fetchLine b asStr).2 := by
+  obtain ⟨k, a⟩ := fetchLine_keepX b asStr h ha hn
+  rw [brkAnchor_of_le hle] at k
+  exact ⟨k.toKeepA, a⟩
 
 theorem read_keep (b : Buf) (k : Nat) (h : WF b) (ha : AnchOK b) : Keep b (read b k).2 ∧ AnchOK (read b k).2 := by
   have hk : Keep b (read b k).2 := by
